@@ -266,7 +266,7 @@ theorem runTx_coherent (steps : List MStep) (s : TxSt) (h : Cons s.o) (hc : Cohe
               have := ih ⟨o1, s.esc - pay⟩ r3 hc'
               rw [r2]
               exact this
-    | nested p pay =>
+    | nested p pay gain =>
       simp only [runTx, runSeq, CoherentTx] at hc ⊢
       obtain ⟨hdis, hc⟩ := hc
       obtain ⟨n1, n2⟩ := nested_coherent p s.o h hdis
@@ -288,11 +288,11 @@ theorem runTx_coherent (steps : List MStep) (s : TxSt) (h : Cons s.o) (hc : Cohe
             · simp only [hpay, ↓reduceIte]
               exact ⟨rfl, fun _ hs => by cases hs⟩
             · simp only [hpay, ↓reduceIte]
-              have hc' : CoherentTx rest ⟨{ s.o with store := st' }, s.esc - pay⟩ := by
+              have hc' : CoherentTx rest ⟨{ s.o with store := st' }, s.esc - pay + gain⟩ := by
                 rcases hc with hc | hc
                 · exact absurd hc hpay
                 · exact hc
-              have := ih ⟨{ s.o with store := st' }, s.esc - pay⟩ n4 hc'
+              have := ih ⟨{ s.o with store := st' }, s.esc - pay + gain⟩ n4 hc'
               rw [n3]
               exact this
 
@@ -337,7 +337,7 @@ theorem coherentTxB_iff (steps : List MStep) (s : TxSt) : coherentTxB steps s = 
         cases ok with
         | false => simp
         | true => simp [ih]
-    | nested p pay =>
+    | nested p pay gain =>
       simp only [coherentTxB, CoherentTx, Bool.and_eq_true, List.all_eq_true, Bool.not_eq_eq_eq_not, Bool.not_true]
       cases nestedCall p s.o.store with
       | mk ok st' =>
@@ -491,7 +491,7 @@ theorem runSeq_tokDiff (hs : List Nat) (hn : hs.Nodup) (steps : List MStep)
           have := method_tokDiff hs hn m hh st (by rw [hr])
           rw [hr] at this
           rw [hrest _ _ h, this]
-    | nested p pay =>
+    | nested p pay gain =>
       simp only [MStep.prog] at hp; subst hp
       simp only [runSeq] at h
       cases hr : runPlain m.prog st with
